@@ -113,14 +113,27 @@ func (sd *blsSide) convKey(o string) string {
 
 // decodeSig tries to unmarshal signature bytes; for the mock suite it also returns the logarithm.
 func (sd *blsSide) decodeSig(b []byte) (kyber.Point, bool) {
+	p, ok, _ := sd.decodeSig3(b)
+	return p, ok
+}
+
+// decodeSig3 additionally reports that UnmarshalBinary panicked on the bytes (C04's finding on the
+// circl back-end: flag byte 0x40 makes CIRCL's SetBytes slice beyond the buffer).
+func (sd *blsSide) decodeSig3(b []byte) (kyber.Point, bool, bool) {
 	p := sd.sigG.Point()
-	ok := kc.Recover(func() string {
+	r := kc.Recover(func() string {
 		if p.UnmarshalBinary(b) != nil {
 			return "err"
 		}
 		return "ok"
-	}) == "ok"
-	return p, ok
+	})
+	return p, r == "ok", r == "panic"
+}
+
+// keyDecodePanic: a signature / partial whose bytes make the signature group's UnmarshalBinary panic
+// takes Verify / VerifyPartial / Recover down with it.
+func (sd *blsSide) keyDecodePanic() string {
+	return sd.env.name + ".Point.UnmarshalBinary/panics-on-malformed-signature-bytes"
 }
 
 func blsErrStr(err error) string {
@@ -184,7 +197,7 @@ func c09Bls(c *kc.Ctx, sd *blsSide, rng *kc.Rng, b *blsBatch, iters int) {
 		for _, vc := range cases {
 			vc := vc
 			Xk := blsMulBase(sd.keyG, q, vc.xk)
-			pt, dec := sd.decodeSig(vc.sig)
+			pt, dec, decPanic := sd.decodeSig3(vc.sig)
 			slog := vc.slog
 			if slog == nil && dec {
 				if sd.env.mock == nil {
@@ -204,7 +217,11 @@ func c09Bls(c *kc.Ctx, sd *blsSide, rng *kc.Rng, b *blsBatch, iters int) {
 				if dec {
 					sp = pt
 				}
-				blsViolation(c, sd.idKey("bls.Verify/"+vc.tag, sp, Xk), fmt.Sprintf("%s: Verify = %s but signature %s x·H(m)", sd.name, verdict, map[bool]string{true: "is", false: "is not"}[want]),
+				vk := sd.idKey("bls.Verify/"+vc.tag, sp, Xk)
+				if verdict == "panic" && decPanic {
+					vk = sd.keyDecodePanic()
+				}
+				blsViolation(c, vk, fmt.Sprintf("%s: Verify = %s but signature %s x·H(m)", sd.name, verdict, map[bool]string{true: "is", false: "is not"}[want]),
 					map[string]string{"side": sd.name, "case": vc.tag, "x": kc.HexN(vc.xk), "msg": kc.HexB(vc.m.m), "sig": kc.HexB(vc.sig)})
 			}
 			sl := "x"
@@ -228,11 +245,12 @@ func c09Bls(c *kc.Ctx, sd *blsSide, rng *kc.Rng, b *blsBatch, iters int) {
 
 // tEntry is one element of the list handed to Recover, with what the harness knows about it.
 type tEntry struct {
-	tag   string
-	bytes []byte
-	idx   int      // -1: fewer than two bytes
-	vlog  *big.Int // nil: value does not unmarshal
-	valid bool     // honestly formed partial for its index: decodes and equals f(idx+1)·H(m)
+	tag      string
+	bytes    []byte
+	idx      int      // -1: fewer than two bytes
+	vlog     *big.Int // nil: value does not unmarshal
+	valid    bool     // honestly formed partial for its index: decodes and equals f(idx+1)·H(m)
+	decPanic bool     // UnmarshalBinary panics on the value bytes
 }
 
 func (e *tEntry) model() string {
@@ -275,7 +293,8 @@ func (s *tblsScn) finish(e *tEntry, known *big.Int) (*tEntry, bool) {
 	e.idx = -1
 	if len(e.bytes) >= 2 {
 		e.idx = int(e.bytes[0])<<8 | int(e.bytes[1])
-		pt, dec := sd.decodeSig(e.bytes[2:])
+		pt, dec, dp := sd.decodeSig3(e.bytes[2:])
+		e.decPanic = dp
 		if dec {
 			switch {
 			case sd.env.mock != nil:
@@ -427,9 +446,15 @@ func (s *tblsScn) recoverCase(c *kc.Ctx, b *blsBatch, tag string, list []*tEntry
 			key = keyTblsDup
 		}
 		blsViolation(c, sd.idKey(key, idPt, idKey), fmt.Sprintf("%s: Recover fails although %d valid partials with distinct indices are present (t=%d): %v", sd.name, len(distinct), s.t, tags), replay)
-	case enough && got == "panic":
+	case got == "panic":
 		pred = false
-		blsViolation(c, "tbls.Recover/panic", sd.name+": Recover panics", replay)
+		k := "tbls.Recover/panic"
+		for _, e := range list {
+			if e.decPanic {
+				k = sd.keyDecodePanic()
+			}
+		}
+		blsViolation(c, k, sd.name+": Recover panics", replay)
 	case enough:
 		if fmt.Sprintf("%x", res) != fmt.Sprintf("%x", s.group) {
 			pred = false
@@ -593,7 +618,11 @@ func c09Tbls(c *kc.Ctx, sd *blsSide, rng *kc.Rng, b *blsBatch) {
 				if e.idx >= 0 && s.shareLog(e.idx).Sign() == 0 {
 					kp = sd.keyG.Point().Null()
 				}
-				blsViolation(c, sd.idKey("tbls.VerifyPartial/"+e.tag, sp, kp), fmt.Sprintf("%s: VerifyPartial = %s on a %s partial (honestly formed: %v)", sd.name, verdict, e.tag, e.valid),
+				vk := sd.idKey("tbls.VerifyPartial/"+e.tag, sp, kp)
+				if verdict == "panic" && e.decPanic {
+					vk = sd.keyDecodePanic()
+				}
+				blsViolation(c, vk, fmt.Sprintf("%s: VerifyPartial = %s on a %s partial (honestly formed: %v)", sd.name, verdict, e.tag, e.valid),
 					map[string]any{"side": sd.name, "t": t, "n": n, "coeffs": blsHexList(s.coeffs), "msg": kc.HexB(s.mm.m), "sig": kc.HexB(e.bytes)})
 			}
 			b.expect(sd.name+":tbls-vpartial-"+e.tag, fmt.Sprintf("c09 bls vpartial %s %s %s %s %s", qh, sd.sg, blsHexList(s.coeffs), kc.HexN(s.mm.h), e.model()), verdict, pred, nil)
